@@ -9,6 +9,8 @@ import (
 	"bufio"
 	"errors"
 	"io"
+	"os"
+	"syscall"
 
 	"verif/sim"
 )
@@ -237,7 +239,8 @@ func min(a, b int) int {
 // ---------------------------------------------------------------------------
 
 // Writer is the writing end. Kind: 0 accept everything; 1 refuse (0,E);
-// 2 accept K bytes in total (across calls) then fail (k,E). It never returns a short
+// 2 accept K bytes in total (across calls) then fail (k,E); 3 the same, but
+// the failure is transient: later writes would succeed. It never returns a short
 // count with a nil error (io.Writer forbids that).
 type Writer struct {
 	c     *sim.Ctx
@@ -247,6 +250,10 @@ type Writer struct {
 	Buf   []byte
 	Calls int
 	Sizes []int
+	// Kind 3 bookkeeping: whether the one-off error was reported, and how many
+	// bytes had been accepted at that moment
+	Failed  bool
+	AtError int
 }
 
 func NewWriter(c *sim.Ctx) *Writer { return &Writer{c: c} }
@@ -259,6 +266,24 @@ func (w *Writer) Write(p []byte) (int, error) {
 		w.c.Ev("write-refuse", int64(len(p)), 0, 2)
 		w.c.Count("fault.write-refuse")
 		return 0, w.Err
+	case 3:
+		// a TRANSIENT failure: accepts K bytes, reports the error once, and
+		// would accept everything again afterwards (a write deadline that
+		// expired, an interrupted call)
+		if !w.Failed {
+			room := w.K - len(w.Buf)
+			if room < len(p) {
+				if room < 0 {
+					room = 0
+				}
+				w.Buf = append(w.Buf, p[:room]...)
+				w.AtError = len(w.Buf)
+				w.Failed = true
+				w.c.Ev("write-partial-transient", int64(len(p)), int64(room), 2)
+				w.c.Count("fault.write-accept-k-then-recover")
+				return room, w.Err
+			}
+		}
 	case 2:
 		// accepts K bytes in total, across however many Write calls, then fails
 		room := w.K - len(w.Buf)
@@ -344,4 +369,49 @@ func (f FancyWriter) ReadFrom(r io.Reader) (int64, error) {
 			return total, err
 		}
 	}
+}
+
+// ---------------------------------------------------------------------------
+// Fault errors. Every injection gets a FRESH error value E (so errors.Is(err, E)
+// can only hold if the library wraps or returns that very value); what E wraps
+// and how it describes itself varies, as real transports' errors do.
+
+type FaultErr struct {
+	Msg     string
+	Inner   error
+	timeout bool
+}
+
+func (e *FaultErr) Error() string {
+	if e.Inner != nil {
+		return e.Msg + ": " + e.Inner.Error()
+	}
+	return e.Msg
+}
+func (e *FaultErr) Unwrap() error   { return e.Inner }
+func (e *FaultErr) Timeout() bool   { return e.timeout }
+func (e *FaultErr) Temporary() bool { return e.timeout }
+
+// NewFaultErr draws the kind of the next injected error from the tape.
+func NewFaultErr(c *sim.Ctx, what string) (*FaultErr, string) {
+	e := &FaultErr{Msg: what}
+	kind := "plain"
+	switch c.T.Pick(6, 1, 1, 1, 1, 1, 1, 1) {
+	case 1:
+		e.Inner, kind = io.EOF, "wraps-io.EOF"
+	case 2:
+		e.Inner, kind = io.ErrUnexpectedEOF, "wraps-io.ErrUnexpectedEOF"
+	case 3:
+		e.Inner, e.timeout, kind = os.ErrDeadlineExceeded, true, "wraps-os.ErrDeadlineExceeded(timeout)"
+	case 4:
+		e.timeout, kind = true, "Timeout()/Temporary()-true"
+	case 5:
+		e.Inner, kind = io.ErrShortWrite, "wraps-io.ErrShortWrite"
+	case 6:
+		e.Inner, kind = syscall.EINTR, "wraps-EINTR"
+	case 7:
+		e.Inner, kind = io.ErrNoProgress, "wraps-io.ErrNoProgress"
+	}
+	c.Count("fault.error-kind:" + kind)
+	return e, kind
 }
